@@ -305,7 +305,9 @@ def check_case(case, ctx):
                 ctx.fail("error-page-framing:" + kind, m.framing)
             _, out2, _ = run_h1(kind, neutral(payload), flag)
             res2 = ref_http1.parse_responses(out2, [b"GET"] * 4)
-            ref_pages = [x for x in res2.msgs if x.status >= 400 and (kind == "connect-method-fail" or b"".join(x.get_all(b"server")).startswith(b"mitmproxy"))]
+            # the reference must be the same kind of response: template page vs. response built ad hoc
+            templ = server.startswith(b"mitmproxy")
+            ref_pages = [x for x in res2.msgs if x.status >= 400 and b"".join(x.get_all(b"server")).startswith(b"mitmproxy") == templ]
             if judge_html(m.body, payload, kind, ctx, ref_body=ref_pages[0].body if ref_pages else None):
                 ctx.nt((kind, payload), "reflected:" + kind)
             else:
